@@ -69,6 +69,8 @@ class Ctx:
     cur = None
     query_timeout_ms = 60000
     solver_factory = staticmethod(lambda: z3.Solver())
+    deadline = None              # wall-clock limit of the running unit (set by explore): also enforced INSIDE a path
+    max_ticks = 200000           # decisions (branches, concretisations) allowed on ONE path: an unbounded symbolic loop must end
 
     def __init__(self, prefix, stats):
         self.prefix = list(prefix)
@@ -248,7 +250,15 @@ class Ctx:
             raise Unsupported("solver returned unknown on a branch condition")
         return r == "sat"
 
+    def _tick(self):
+        self._ticks = getattr(self, "_ticks", 0) + 1
+        if self._ticks > self.max_ticks:
+            raise Unsupported(f"more than {self.max_ticks} decisions on one path (a loop whose trip count the path condition does not bound)")
+        if Ctx.deadline is not None and self._ticks % 64 == 0 and time.time() > Ctx.deadline:
+            raise Unsupported("unit time budget exceeded")
+
     def branch(self, e):
+        self._tick()
         e = z3.simplify(e)
         if z3.is_true(e):
             return True
@@ -283,6 +293,7 @@ class Ctx:
         return v
 
     def choose_int(self, e, cap=None):
+        self._tick()
         e = z3.simplify(e)
         if z3.is_int_value(e):
             return e.as_long()
@@ -518,6 +529,7 @@ def explore(fn, max_paths=20000, deadline=None, stop=None):
     stats = {"paths": 0, "branches": 0, "queries": 0, "solver_s": 0.0, "aborted": 0}
     stack = [[]]
     done = []
+    Ctx.deadline = deadline
     while stack:
         prefix = stack.pop()
         ctx = Ctx(prefix, stats)
